@@ -3,8 +3,8 @@
 MUTATIONS = [
     # ---- add_measures
     dict(prop="C11", name="add_measures-ignore-signature-cut", file="partitura/score.py",
-         old="            measure_end = min(ts_end, inv_beat_map(measure_end_beats))\n",
-         new="            measure_end = inv_beat_map(measure_end_beats)\n"),
+         old="            measure_end = min(ts_end, int(np.round(inv_beat_map(measure_end_beats))))\n",
+         new="            measure_end = int(np.round(inv_beat_map(measure_end_beats)))\n"),
     dict(prop="C11", name="add_measures-filler-number-skips", file="partitura/score.py",
          old="                existing_measure.number = mcounter + 1\n                mcounter = mcounter + 2\n",
          new="                existing_measure.number = mcounter + 1\n                mcounter = mcounter + 1\n"),
@@ -12,8 +12,8 @@ MUTATIONS = [
          old="                    measure_end = existing_measure.start.t\n",
          new="                    measure_end = existing_measure.end.t\n"),
     dict(prop="C11", name="add_measures-beats-from-first-signature", file="partitura/score.py",
-         old="        ts_start_times, ts_end_times, beats_per_measure\n    ):\n        pos = ts_start\n",
-         new="        ts_start_times, ts_end_times, beats_per_measure\n    ):\n        measure_dur = beats_per_measure[0]\n        pos = ts_start\n"),
+         old="        ts_start_times, ts_end_times, beats_per_measure\n    ):\n        # an existing measure may reach beyond the signature change\n        pos = max(pos, ts_start)\n",
+         new="        ts_start_times, ts_end_times, beats_per_measure\n    ):\n        measure_dur = beats_per_measure[0]\n        pos = max(pos, ts_start)\n"),
     # ---- tie_notes
     dict(prop="C11", name="tie_notes-first-piece-symbolic-from-whole-note", file="partitura/score.py",
          old="                next_measure.start.t - cur_note.start.t, cur_note.start.quarter\n",
@@ -51,9 +51,8 @@ MUTATIONS = [
          new="        return any(\n            estimate_symbolic_duration(right - left, divs)\n            for left, right in iter_current_next([start] + state + [end])"),
     # ---- fill_rests (second, effective definition)
     dict(prop="C11", name="fill_rests-global-trailing-rest-from-note-start", file="partitura/score.py",
-         old="            sym_dur = estimate_symbolic_duration(\n                end_time - min_end_note.end.t, part._quarter_durations[0]\n            )",
-         new="            sym_dur = estimate_symbolic_duration(\n                end_time - min_end_note.start.t, part._quarter_durations[0]\n            )",
-         count=3),
+         old="            sym_dur = estimate_symbolic_duration(\n                end_time - min_end_note.end.t,\n                int(part.quarter_duration_map(min_end_note.end.t)),\n            )",
+         new="            sym_dur = estimate_symbolic_duration(\n                end_time - min_end_note.start.t,\n                int(part.quarter_duration_map(min_end_note.end.t)),\n            )"),
     dict(prop="C11", name="fill_rests-measurewise-leading-rest-to-note-end", file="partitura/score.py",
          old="                part.add(rest, start_time, min_start_note.start.t)\n\n        # get note with max end.t and fill the rest after it if needed",
          new="                part.add(rest, start_time, min_start_note.end.t)\n\n        # get note with max end.t and fill the rest after it if needed"),
@@ -67,4 +66,31 @@ MUTATIONS = [
     # ---- documented as unreachable (see ASSUMPTIONS): expected MISSED, kept as evidence that find_tuplets is dead code
     dict(prop="C11", name="UNREACHABLE-find_tuplets-normal-notes-3", file="partitura/score.py",
          old="    # only look for x:2 tuplets\n    normal_notes = 2\n", new="    # only look for x:2 tuplets\n    normal_notes = 3\n"),
+    # ---- added by the generator audit (docs/audit/C11.md): only the widened shapes expose these
+    # existing measures without a number (constructor default) must be numbered too
+    dict(prop="C11", name="audit-add-measures-skips-unnumbered-existing-measure", file="partitura/score.py",
+         old="                    pos = existing_measure.end.t\n                    existing_measure.number = mcounter\n",
+         new="                    pos = existing_measure.end.t\n                    if existing_measure.number is not None:\n                        existing_measure.number = mcounter\n"),
+    # user-supplied musical beats
+    dict(prop="C11", name="audit-add-measures-default-musical-beats", file="partitura/score.py",
+         old="            (ts.start.t, ts.musical_beats if part._use_musical_beat else ts.beats)\n            for ts in part.iter_all(TimeSignature)",
+         new="            (ts.start.t, MUSICAL_BEATS.get(ts.beats, ts.beats) if part._use_musical_beat else ts.beats)\n            for ts in part.iter_all(TimeSignature)"),
+    # fill_rests given a Score
+    dict(prop="C11", name="audit-fill-rests-score-not-unpacked", file="partitura/score.py", count=2,
+         old="    if isinstance(score_data, Score):\n        partlist = score_data.parts\n    else:\n        partlist = [score_data]\n    for part in partlist:\n        measures = part.measures",
+         new="    partlist = [score_data]\n    for part in partlist:\n        measures = part.measures"),
+    # sanitize_part(part, tie_tolerance > 0) must leave contiguous tie chains alone
+    dict(prop="C11", name="audit-sanitize-tie-tolerance-inverted", file="partitura/score.py",
+         old="            if abs((e - s) - d) > tie_tolerance:", new="            if abs((e - s) - d) < tie_tolerance:"),
+    # estimate_symbolic_duration(..., return_com_durations=True)
+    dict(prop="C11", name="audit-composite-durations-neighbouring-entry", file="partitura/utils/music.py",
+         old="                return copy.copy(SYM_COMPOSITE_DURS[j])", new="                return copy.copy(SYM_COMPOSITE_DURS[j - 1])"),
+    # numpy integer durations (note arrays)
+    dict(prop="C11", name="audit-estimate-integer-division-for-numpy-ints", file="partitura/utils/music.py",
+         old="    global DURS, SYM_DURS\n    qdur = dur / div\n", new="    global DURS, SYM_DURS\n    qdur = dur // div if isinstance(dur, np.integer) else dur / div\n"),
+    # durations that need three tied values
+    dict(prop="C11", name="audit-tie-split-at-most-one-split", file="partitura/utils/music.py",
+         old="        if len(state) >= max_splits:\n            return []", new="        if len(state) >= min(max_splits, 1):\n            return []"),
+    dict(prop="C11", name="audit-tie-split-at-most-two-splits", file="partitura/utils/music.py",
+         old="        if len(state) >= max_splits:\n            return []", new="        if len(state) >= min(max_splits, 2):\n            return []"),
 ]
